@@ -21,6 +21,7 @@ PROPS["C19"] = dict(
 MIN = MINCACHE
 def _c01_runs(tier):
     rs = []
+    rs.append(Run(C(), "harness/p_c01.c", ["--mode=alias"], group="host-alias"))
     for mode in ("grid", "split", "big"):
         rs.append(Run(C(), "harness/p_c01.c", ["--mode=" + mode], group="host-" + mode))
         rs.append(Run(C(sse2=0, **MIN), "harness/p_c01.c", ["--mode=" + mode], group="min-" + mode))
@@ -28,7 +29,7 @@ def _c01_runs(tier):
 
 PROPS["C01"] = dict(
     level="exploration", runs=_c01_runs,
-    rule="complete product of declared alphabets: multiplication routes x parameters (k in {-1..17 sample incl. all of 2..8}, cutoffs) x shape triples x operand pattern pairs (dense pairs, sparse, identity, zero, and complete unit bases by bilinearity: l cyclic one-entry-per-row matrices for A, l for B); a case is (route, parameter, shape, patterns); non-trivial = the reference product is non-zero; distinct = distinct (operand digest, route, parameter)",
+    rule="complete product of declared alphabets: multiplication routes x parameters (k in {-1..17 sample incl. all of 2..8}, cutoffs) x shape triples x operand pattern pairs (dense pairs, sparse, identity, zero, and complete unit bases by bilinearity: l cyclic one-entry-per-row matrices for A, l for B), plus 'alias' cases where the two factors are distinct views of ONE parent matrix (common top-left corner / side by side / overlapping rows) for all shape triples of a boundary set; a case is (route, parameter, shape, patterns); non-trivial = the reference product is non-zero; distinct = distinct (operand digest, route, parameter)",
     level_text="Bounded-exhaustive differential exploration: every multiplication entry point is executed on the complete Cartesian product of finite shape/pattern/parameter alphabets (all residues around 64-bit words, Strassen split limits, cubic/table switches) in a default and a minimum-cache/no-SSE2 build, and every result is compared bit for bit with an independent reference product; factors must be unchanged and padding zero; ASan/UBSan on.",
     level_note="Bounded: dimensions <= ~1400, fixed pattern alphabets (unit bases are complete only under bilinearity, which is assumed, not proved). OpenMP front ends are covered in C16.",
     technique="bounded-exhaustive enumeration of input/parameter alphabets on the real code against a reference model",
@@ -46,7 +47,7 @@ def _c02_runs(tier):
 
 PROPS["C02"] = dict(
     level="exploration", runs=_c02_runs,
-    rule="entry points {naive, gauss_delayed, M4RI (k alphabet), PLUQ-based, hybrid, hybrid with every threshold} x full in {0,1} x inputs: TINY(N) = ALL matrices with <= N entries of every shape (N=14 quick / 18 thorough), LIFT = Kronecker lifts of ALL binary matrices with <= 8 (12) entries by blocks {7,33,65,(1,64)} x {identity, dense invertible, all-ones} x {plain, left-, both-side densified}, ECH = echelon forms over ALL subsets of 10 boundary pivot columns, RK = low-rank products on boundary shapes, BND = boundary shapes x structured patterns, plus threshold shapes of the min-cache build; non-trivial = rank > 0; distinct = distinct (input digest, entry point, full, k, threshold)",
+    rule="entry points {naive, gauss_delayed, M4RI (k alphabet), PLUQ-based, hybrid, hybrid with every threshold} x full in {0,1} x inputs: TINY(N) = ALL matrices with <= N entries of every shape (N=14 quick / 18 thorough), LIFT = Kronecker lifts of ALL binary matrices with <= 8 (12) entries by blocks {7,33,65,(1,64)} x {identity, dense invertible, all-ones} x {plain, left-, both-side densified}, ECH = echelon forms over ALL subsets of 10 boundary pivot columns, RK = low-rank products on boundary shapes, BND = boundary shapes x structured patterns, HYB = sparse-start/dense-end block matrices with > 256 sparse columns on which the density-switching hybrid changes algorithm in the middle (every threshold in {0,0.05,0.1,0.2,0.25,0.5,1,2} x k in {0,3,6}), plus threshold shapes of the min-cache build; non-trivial = rank > 0; distinct = distinct (input digest, entry point, full, k, threshold)",
     level_text="Bounded-exhaustive differential exploration: every echelonisation entry point on every member of complete small-matrix domains and of structured families that place every block rank profile across word and table-block boundaries; rank, exact RREF, echelon shape, row space and top-reduction are compared with an independent Gaussian elimination.",
     level_note="Bounded: all matrices only up to 14/18 entries; beyond that lifts of exhaustive cores and fixed families up to 1300 columns. Hybrid density heuristic is only entered for matrices with > 256 columns in the loop and at the start for dense inputs.",
     technique="bounded-exhaustive enumeration (all small matrices, all lifted rank profiles) on the real code against a reference Gaussian elimination",
